@@ -230,7 +230,7 @@ func runCheckFull(o CheckOpts) (cr CheckResult) {
 		}
 	}
 	if o.Workers == 0 {
-		o.Workers = 12
+		o.Workers = 16
 	}
 	if o.OutDir == "" {
 		o.OutDir = filepath.Join(verifDir, "out", o.Prop+"-"+o.Tier)
@@ -341,7 +341,7 @@ func runCheckFull(o CheckOpts) (cr CheckResult) {
 			say("load+ssa: %.1fs, %d functions under contract for %s", tLoad, len(mine), o.Prop)
 		}
 		all := map[string]*Contract{}
-		ix := buildFnIndex(prog)
+		ix := fnIndex(progFnIndex(prog))
 		for _, c := range pre.Contracts {
 			if fn := ix.find(c.Pkg, c.Fn); fn != nil {
 				all[fn.String()] = c
@@ -486,6 +486,18 @@ func runCheckFull(o CheckOpts) (cr CheckResult) {
 	}
 	for _, v := range violations {
 		say("%s", v)
+	}
+	if os.Getenv("GOVC_PROFILE") != "" {
+		perFn := map[string][2]float64{}
+		for _, r := range allRes {
+			p := perFn[r.Fn]
+			p[0]++
+			p[1] += r.Secs
+			perFn[r.Fn] = p
+		}
+		for fn, p := range perFn {
+			fmt.Fprintf(os.Stderr, "profile %-70s %5.0f obligations %8.1f solver-s\n", fn, p[0], p[1])
+		}
 	}
 	wall := time.Since(t0).Seconds()
 	if !o.Quiet {
@@ -634,7 +646,64 @@ func verifyAll(prog *ssa.Program, ix fnIndex, mine []*Contract, all map[string]*
 	results := make([]Result, len(jobs))
 	var wg sync.WaitGroup
 	sem := make(chan struct{}, o.Workers)
+	// Phase 1: per function and kind, the bulk obligations go through one
+	// incremental solver process; what it does not prove falls through to phase 2.
+	done := make([]bool, len(jobs))
+	if os.Getenv("GOVC_NOBATCH") == "" {
+		type bkey struct {
+			e    *Engine
+			kind string
+		}
+		batches := map[bkey][]int{}
+		var order []bkey
+		for _, j := range jobs {
+			switch j.ob.Kind {
+			case "nopanic", "post", "keep", "at", "step":
+			default:
+				continue
+			}
+			if j.ob.Known {
+				continue
+			}
+			k := bkey{j.e, j.ob.Kind}
+			if _, ok := batches[k]; !ok {
+				order = append(order, k)
+			}
+			batches[k] = append(batches[k], j.idx)
+		}
+		for _, k := range order {
+			idxs := batches[k]
+			if len(idxs) < 4 {
+				continue
+			}
+			// chunks keep single processes short and let the cores share the work
+			for c := 0; c < len(idxs); c += 64 {
+				chunk := idxs[c:min(c+64, len(idxs))]
+				wg.Add(1)
+				sem <- struct{}{}
+				go func(k bkey, chunk []int) {
+					defer wg.Done()
+					defer func() { <-sem }()
+					obs := make([]Obligation, len(chunk))
+					for i, ix := range chunk {
+						obs[i] = jobs[ix].ob
+					}
+					rs := solveBatch(filepath.Join(o.OutDir, "smt"), k.e, obs, o.Timeout)
+					for i, ix := range chunk {
+						if rs[i].Verdict == "unsat" {
+							results[ix] = rs[i]
+							done[ix] = true
+						}
+					}
+				}(k, chunk)
+			}
+		}
+		wg.Wait()
+	}
 	for _, j := range jobs {
+		if done[j.idx] {
+			continue
+		}
 		wg.Add(1)
 		sem <- struct{}{}
 		go func(j job) {
